@@ -337,6 +337,11 @@ fn main() {
                     for &a in &small {
                         lens_menu.push(vec![a]);
                     }
+                } else if k == 4 && thorough && m <= 7 {
+                    // thorough: every 4-tuple over the lengths around the 16-byte block
+                    for t in 0..625usize {
+                        lens_menu.push(vec![small[t % 5], small[t / 5 % 5], small[t / 25 % 5], small[t / 125]]);
+                    }
                 } else if k == 2 || (k == 3 && thorough) {
                     let mut cur = vec![0usize; k];
                     loop {
@@ -477,7 +482,7 @@ fn main() {
     let r_ref = &r;
     let w_ref = &w;
     vcore::par::for_each(jobs, 8, cases.into_iter(), |c| check(r_ref, w_ref, &c, false));
-    r.set_rule(&format!("E-ENUM. Real PreparedStatements from RESULT/Prepared body bytes (production parser + constructor; partitioner from the table's partitioner string in a real ClusterState). k=1..{kmax} key components among m=k..{mmax} bind markers in EVERY injective arrangement (positions x order); component lengths: all tuples over {{0,1,15,16,17}} for k<=2{} and rotating assignments otherwise, plus 65535 / 65536 in every position; non-key markers valued / NULL / unset / long; global and per-column table specs; CDC tables with a single key at every marker position; 8 spellings of the table partitioner string (deciding: absent and the two class names servers send; bare / unknown / empty names only have to be consistent with the partitioner the statement reports) with get_partitioner_name / is_token_aware / get_variable_pk_indexes checked; the same values bound BY NAME (BTreeMap); 8/9/10-component keys (SmallVec spill) and keys among 256/257/300 (thorough 65535) markers; component lengths now also 30, 33, 255, 257 and two 65535-byte components side by side; constructed preimages (cqlref::murmur3::invert_block16 / composite_preimage): single-column 16-byte keys and two-component composite keys whose framed stream has RAW Murmur3 hash exactly i64::MIN (token must be i64::MAX), MIN+1, MAX, -1, 0. Every partition-key/token computation runs on 7 handles of each statement: as prepared, clone, clone of clone, clone reconfigured through setters (page size, consistency, idempotence, tracing, timestamp, timeout), its clone, the CachingSession path (unconfigured cached handle -> configured handle) and its clone. Oracles: compute_partition_key == len16|bytes|0 framing in KEY order (single column: raw bytes); calculate_token and ClusterState::compute_token == reference Murmur3/CDC token; 65536-byte component of a composite key refused. distinct_nontrivial = cases with a composite key whose marker order differs from key order or with interleaved non-key markers.", if thorough { " (k<=3 thorough)" } else { "" }));
+    r.set_rule(&format!("E-ENUM. Real PreparedStatements from RESULT/Prepared body bytes (production parser + constructor; partitioner from the table's partitioner string in a real ClusterState). k=1..{kmax} key components among m=k..{mmax} bind markers in EVERY injective arrangement (positions x order); component lengths: all tuples over {{0,1,15,16,17}} for k<=2{} and rotating assignments otherwise, plus 65535 / 65536 in every position; non-key markers valued / NULL / unset / long; global and per-column table specs; CDC tables with a single key at every marker position; 8 spellings of the table partitioner string (deciding: absent and the two class names servers send; bare / unknown / empty names only have to be consistent with the partitioner the statement reports) with get_partitioner_name / is_token_aware / get_variable_pk_indexes checked; the same values bound BY NAME (BTreeMap); 8/9/10-component keys (SmallVec spill) and keys among 256/257/300 (thorough 65535) markers; component lengths now also 30, 33, 255, 257 and two 65535-byte components side by side; constructed preimages (cqlref::murmur3::invert_block16 / composite_preimage): single-column 16-byte keys and two-component composite keys whose framed stream has RAW Murmur3 hash exactly i64::MIN (token must be i64::MAX), MIN+1, MAX, -1, 0. Every partition-key/token computation runs on 7 handles of each statement: as prepared, clone, clone of clone, clone reconfigured through setters (page size, consistency, idempotence, tracing, timestamp, timeout), its clone, the CachingSession path (unconfigured cached handle -> configured handle) and its clone. Oracles: compute_partition_key == len16|bytes|0 framing in KEY order (single column: raw bytes); calculate_token and ClusterState::compute_token == reference Murmur3/CDC token; 65536-byte component of a composite key refused. distinct_nontrivial = cases with a composite key whose marker order differs from key order or with interleaved non-key markers.", if thorough { " (k<=3 thorough; k=4 thorough: all 625 tuples over {0,1,15,16,17} for m<=7)" } else { "" }));
     r.set_exhaustive(true);
     r.sample(json!({"markers":5,"pk_marker":[4,0,3],"meaning":"key component 0 bound by marker 4, component 1 by marker 0, component 2 by marker 3 (the repo's single shuffled unit test)"}));
     r.assume("PreparedStatement is obtained through hook H-PREPARED from response body bytes instead of Session::prepare against a mock node; the partitioner choice mirrors Session::extract_partitioner_name (6 lines) instead of calling it");
